@@ -193,6 +193,10 @@ type Sched struct {
 	// SyncPreempt: probability (per mille) of handing the token over right at
 	// a synchronisation point (lock, unlock, once, pool get/put).
 	SyncPreempt int `json:"sync_preempt,omitempty"`
+	// WritePreempt: probability (per mille) of handing the token over at a
+	// yield that sits right before a non-local write, while another task is
+	// runnable.
+	WritePreempt int `json:"write_preempt,omitempty"`
 }
 
 // Scenario is one simulated world.
@@ -269,6 +273,7 @@ type Stats struct {
 	PoolDrops          uint64   `json:"pool_drops,omitempty"`
 	SyncPoints         uint64   `json:"sync_points,omitempty"`
 	Touches            uint64   `json:"global_accesses,omitempty"` // accesses to package-level variables seen by the race detector
+	WriteYields        uint64   `json:"write_yields,omitempty"`
 	SyncedGlobalWrites int      `json:"synced_global_writes,omitempty"`
 	SwitchHash         string   `json:"switch_hash"` // hash of the (task,op,site) switch sequence
 	YieldCover         int      `json:"yield_cover,omitempty"`
